@@ -189,7 +189,7 @@ func (b *PathBuilder) buildPathRecursive(buf []rune) (int, error) {
 	}
 	for cursor := 0; cursor < len(buf); cursor++ {
 		switch buf[cursor] {
-		case '$', '*', ']':
+		case '$', '*', ']', '\'', '"':
 			return 0, errors.ErrInvalidPath("found %c character in field selector context", buf[cursor])
 		case '.':
 			if cursor+1 >= len(buf) {
